@@ -184,17 +184,27 @@ func VerifH09d() {
 	vAssert("define-ok", cols.Define(ctx, w, formats) == nil)
 	msgs, ok := vFrames(conn.out)
 	vAssert("one-RowDescription", ok && len(msgs) == 1 && msgs[0].typ == 'T' && vBodyOK(msgs[0]))
+	// the type modifier is not pinned down by any property: -1 ("no modifier",
+	// what the library writes today) and the column's own TypeModifier are both
+	// accepted; everything else is exact
 	want := vU16(nc)
+	wantMod := vU16(nc)
 	for i, c := range cols {
-		want = append(want, vCStr(names[i])...)
-		want = append(want, vU32(uint32(c.Table))...)
-		want = append(want, vU16(int(uint16(c.AttrNo)))...)
-		want = append(want, vU32(uint32(c.Oid))...)
-		want = append(want, vU16(int(uint16(c.Width)))...)
-		want = append(want, 0xFF, 0xFF, 0xFF, 0xFF)
-		want = append(want, vU16(int(uint16(vFormatFor(formats, i))))...)
+		for _, dst := range []*[]byte{&want, &wantMod} {
+			*dst = append(*dst, vCStr(names[i])...)
+			*dst = append(*dst, vU32(uint32(c.Table))...)
+			*dst = append(*dst, vU16(int(uint16(c.AttrNo)))...)
+			*dst = append(*dst, vU32(uint32(c.Oid))...)
+			*dst = append(*dst, vU16(int(uint16(c.Width)))...)
+			if dst == &want {
+				*dst = append(*dst, 0xFF, 0xFF, 0xFF, 0xFF)
+			} else {
+				*dst = append(*dst, vU32(uint32(c.TypeModifier))...)
+			}
+			*dst = append(*dst, vU16(int(uint16(vFormatFor(formats, i))))...)
+		}
 	}
-	vAssert("rowdescription-content", vEqBytes(msgs[0].body, want))
+	vAssert("rowdescription-content", vOr(vEqBytes(msgs[0].body, want), vEqBytes(msgs[0].body, wantMod)))
 	if nc == 2 {
 		vReach("two-columns")
 	}
